@@ -29,7 +29,7 @@ class Table:
         return self.classes[cls]["rows"]
 
     def spec_kind(self, cls, attr) -> str:
-        if cls == "LangString":
+        if cls.startswith("LangString"):
             return "str"
         if cls == "ValueList":
             return "set:node:ValueReferencePair"
@@ -71,7 +71,8 @@ class Table:
             spec_kind = spec_kind[1:]
         head, _, arg = spec_kind.partition(":")
         if head == "lss":
-            return ["l", [["n", "LangString", [tok(k, k == ""), tok(t, t == "")]] for k, t in v.items()]]
+            lcls = "LangString" if "LangString" in self.classes else "LangString" + type(v).__name__
+            return ["l", [["n", lcls, [tok(k, k == ""), tok(t, t == "")]] for k, t in v.items()]]
         if head == "node":
             return self.to_val(v)
         if head in ("list", "set"):
@@ -135,6 +136,64 @@ class Table:
                 continue
             r = rows.get(name)
             ms.append([name, self.wire_of_json(r["kind"], x) if r else tok("?unknown-member")])
+        return ["o", tag, ms]
+
+    # -------------------------------------------------------------------------------- XML -> Wire normal form
+    @staticmethod
+    def local(el) -> str:
+        t = el.tag
+        return t.split("}", 1)[1] if isinstance(t, str) and "}" in t else str(t)
+
+    def wire_of_xml(self, kind, el):
+        """Convert a parsed XML element (lxml) into wire normal form along the expected kind."""
+        if kind == "leaf":
+            return tok(el.text if el.text is not None else "")
+        children = [c for c in el if isinstance(c.tag, str)]
+        if kind[0] == "list":
+            inner = kind[1]
+            if inner == "leaf":                         # levelType: <min>true</min>...
+                return ["a", [tok(self.local(c)) for c in children if (c.text or "") == "true"]]
+            return ["a", [self.wire_of_xml_item(inner, c) for c in children]]
+        return self.wire_of_xml_obj(kind, el, member=self.local(el))
+
+    def wire_of_xml_item(self, kind, el):
+        """a list item / root element: the element itself is the object, its tag names the class"""
+        if kind[0] == "poly" and set(kind[1]) == {"ExternalReference", "ModelReference"}:
+            return self.wire_of_xml_obj(kind, el, member=None)
+        if kind[0] == "poly":
+            return self.obj_from(self.tag_to_cls.get(self.local(el)), self.local(el), el)
+        if kind[0] == "node":
+            return self.obj_from(kind[1], self.classes[kind[1]]["tag"] if kind[1] in self.classes else None, el)
+        return self.wire_of_xml(kind, el)
+
+    def wire_of_xml_obj(self, kind, el, member):
+        children = [c for c in el if isinstance(c.tag, str)]
+        if kind[0] == "poly" and set(kind[1]) == {"ExternalReference", "ModelReference"}:
+            t = next((c.text for c in children if self.local(c) == "type"), None)
+            return self.obj_from(self.tag_to_cls.get(t), t, el, drop={"type"})
+        if kind[0] == "poly":
+            # wrapper element holding exactly the polymorphic object (operationVariable/value, dataSpecificationContent)
+            if len(children) == 1 and self.local(children[0]) in self.tag_to_cls:
+                c = children[0]
+                return self.obj_from(self.tag_to_cls[self.local(c)], self.local(c), c)
+            return ["o", None, [[self.local(c), tok("?")] for c in children]]
+        cls = kind[1]
+        ctag = self.classes[cls]["tag"] if cls in self.classes else None
+        if len(children) == 1 and ctag and self.local(children[0]) == ctag and member != ctag:
+            return self.obj_from(cls, ctag, children[0])
+        return self.obj_from(cls, ctag, el)
+
+    def obj_from(self, cls, tag, el, drop=frozenset()):
+        rows = {r["member"]: r for r in self.rows(cls)} if cls in self.classes else {}
+        ms = []
+        for c in el:
+            if not isinstance(c.tag, str):
+                continue
+            name = self.local(c)
+            if name in drop:
+                continue
+            r = rows.get(name)
+            ms.append([name, self.wire_of_xml(r["kind"], c) if r else tok("?unknown-member")])
         return ["o", tag, ms]
 
     # -------------------------------------------------------------------------------- normalisation for comparison
